@@ -69,13 +69,23 @@ SIGNATURES: dict[str, list[str]] = {}
 EXTERNAL_SIGNATURES = {
     "write_csv": [["file"]], "write_parquet": [["file"]], "read_csv": [["source"]], "read_parquet": [["source"]],
     "as_euler": [["seq", "degrees"]], "Series": [["name", "values"]],
+    "center_of_mass": [["input", "labels", "index"]], "map_coordinates": [["input", "coordinates"]], "gaussian_filter": [["input", "sigma"]],
+    "gaussian_laplace": [["input", "sigma"]], "label": [["input", "structure"]], "zoom": [["input", "zoom"]], "pad": [["array", "pad_width", "mode"]],
+    "distance_transform_edt": [["input"]], "binary_erosion": [["input", "structure"]], "binary_dilation": [["input", "structure"]],
+    "binary_opening": [["input", "structure"]], "binary_closing": [["input", "structure"]], "affine_transform": [["input", "matrix"]],
+    "spline_filter": [["input", "order"]], "shift": [["input", "shift"]], "ndi_shift": [["input", "shift"]],
 }
 
 
 def set_signatures(table: dict):
     SIGNATURES.clear()
-    SIGNATURES.update(EXTERNAL_SIGNATURES)
-    SIGNATURES.update(table)
+    for k, v in EXTERNAL_SIGNATURES.items():
+        SIGNATURES[k] = [list(x) for x in v]
+    for k, v in table.items():
+        cur = SIGNATURES.setdefault(k, [])
+        for sig in v:
+            if sig not in cur:
+                cur.append(sig)
 
 
 def _signature_of(call: ast.Call):
